@@ -497,6 +497,73 @@ def _w_export(task):
     return t
 
 
+# ---------------------------------------------------------------------------
+# DXF polylines with bulged segments (the form other programs write; trimesh's exporter writes ARC entities)
+# ---------------------------------------------------------------------------
+
+BULGE_SHAPES = {
+    "triangle": [(0, 0), (4, 0), (1, 3)],
+    "quad": [(0, 0), (4, 0), (4, 3), (0, 3)],
+    "pentagon": [(0, 0), (4, 0), (5, 2), (2, 4), (-1, 2)],
+    "quad_clockwise": [(0, 3), (4, 3), (4, 0), (0, 0)],
+}
+BULGES = (0.0, 0.3, -0.2)
+
+
+def dxf_polyline(verts, bulges):
+    out = ["0", "SECTION", "2", "HEADER", "9", "$INSUNITS", "70", "1", "0", "ENDSEC", "0", "SECTION", "2", "ENTITIES", "0", "LWPOLYLINE", "8", "0", "90", str(len(verts)), "70", "1"]
+    for (x, y), b in zip(verts, bulges):
+        out += ["10", repr(float(x)), "20", repr(float(y))]
+        if b != 0:
+            out += ["42", repr(float(b))]
+    out += ["0", "ENDSEC", "0", "EOF"]
+    return ("\n".join(out) + "\n").encode()
+
+
+def bulge_area(verts, bulges):
+    """Exact enclosed area: polygon (shoelace) plus the signed circular segment of every bulged side
+    (DXF: included angle 4 atan(b), counter-clockwise from vertex i to i+1 when b > 0)."""
+    V = np.array(verts, dtype=float)
+    n = len(V)
+    A = 0.5 * sum(V[i][0] * V[(i + 1) % n][1] - V[(i + 1) % n][0] * V[i][1] for i in range(n))
+    for i, b in enumerate(bulges):
+        if b == 0:
+            continue
+        c = np.linalg.norm(V[(i + 1) % n] - V[i])
+        th = 4 * np.arctan(abs(b))
+        r = c / (2 * np.sin(th / 2))
+        A += np.sign(b) * 0.5 * r * r * (th - np.sin(th))
+    return abs(A)
+
+
+def check_bulge(t, sname, bl):
+    import trimesh
+
+    vs = BULGE_SHAPES[sname]
+    nb = sum(1 for b in bl if b != 0)
+    cls = "no bulge" if nb == 0 else ("every side bulged" if nb == len(bl) else ("exactly one straight side" if nb == len(bl) - 1 else "straight and bulged sides"))
+    case = {"family": "dxf_bulge", "shape": sname, "bulges": list(bl)}
+    t.evaluations += 1
+    t.nontrivial_count += 1
+    try:
+        p = trimesh.load_path(io.BytesIO(dxf_polyline(vs, bl)), file_type="dxf")
+        want = bulge_area(vs, bl)
+        n_reg = len(p.polygons_full)
+        if n_reg != 1 or not p.is_closed:
+            t.violation(f"DXF polyline with bulges: the closed boundary is not rebuilt as one region [{cls}]", case, {"regions": n_reg, "closed": bool(p.is_closed)})
+        elif abs(float(p.area) - want) > 2e-2 * abs(shoelace([(Fr(x), Fr(y)) for x, y in vs])):  # arcs are discretised: 2% of the base polygon, as for the other arc drawings
+            t.violation(f"DXF polyline with bulges: area differs from polygon plus circular segments [{cls}]", case, {"got": float(p.area), "want": want})
+    except Exception as e:
+        t.violation(f"DXF polyline with bulges: loading / reading regions raises {type(e).__name__} [{cls}]", case, {"exc": repr(e)[:300]})
+
+
+def _w_bulge(sname):
+    t = harness.Tally()
+    for bl in itertools.product(BULGES, repeat=len(BULGE_SHAPES[sname])):
+        check_bulge(t, sname, bl)
+    return t
+
+
 def _run(task):
     return task[0](task[1])
 
@@ -526,6 +593,8 @@ def replay(case):
         t.merge(_w_edit_then_transform((case["drawing"], 4)))
     elif fam == "construction_scale":
         t.merge(_w_construction_scale(None))
+    elif fam == "dxf_bulge":
+        check_bulge(t, case["shape"], tuple(case["bulges"]))
     else:
         t.merge(_w_export((case["drawing"], 5)))
         t.merge(_w_export((case["drawing"], 4)))
@@ -548,6 +617,7 @@ def main(run):
     tasks.append((_w_arcs, None))
     tasks.append((_w_arc_transform, None))
     tasks.append((_w_construction_scale, None))
+    tasks += [(_w_bulge, sname) for sname in BULGE_SHAPES]
     run.log(f"{len(tasks)} tasks, <= {maxe} entities")
     res = harness.pmap(_run, tasks)
     run.merge(res)
@@ -555,6 +625,6 @@ def main(run):
         "exhaustive": True,
         "max_entities": maxe,
         "drawings": list(DRAWINGS) + list(arc_drawings()),
-        "rule": "7 polygonal drawings: every cut set of every loop x every direction assignment x every permutation of the entity list with at most the stated number of entities, exact Fraction area / nesting oracle; 4 arc drawings: every direction x permutation, invariance; (read set) -> apply_transform(6 similarities) -> read against scaling law and a freshly built path; export -> re-import through dxf, svg, dict",
+        "rule": "7 polygonal drawings: every cut set of every loop x every direction assignment x every permutation of the entity list with at most the stated number of entities, exact Fraction area / nesting oracle; 4 arc drawings: every direction x permutation, invariance; (read set) -> apply_transform(6 similarities) -> read against scaling law and a freshly built path; export -> re-import through dxf, svg, dict; hand-written DXF LWPOLYLINE of 4 closed shapes x every bulge pattern over {0, 0.3, -0.2}: one closed region, area = polygon + circular segments to 2% of the base polygon (arcs are discretised)",
     }
     return run.finish(cov, assumptions=["exactness only for polygonal input; arcs: invariance between variants and 2% agreement with the smooth area"])
